@@ -195,6 +195,9 @@ def run(chk):
     log = ReaderRecord(repo, 'convert_board_log', 'BoardLog', 'C12.R3', setting=setting)
     n = check_typed_fields(chk, 'C12.R3', setting) + check_typed_fields(chk, 'C12.R3', log)
     chk.floor('C12.R3', 'typed slots checked in the JSON readers', n, 20)
+    from .jsonio import check_converters
+    check_converters(chk, 'C12.R2', repo, setting.m, setting.qual, setting.fields, setting.annots)
+    check_converters(chk, 'C12.R2', repo, log.m, log.qual, log.fields, log.annots, inline=setting)
     for rr, table in ((log, FIELD_KEYS), (setting, SETTING_KEYS)):
         for fld, expr in rr.fields.items():
             want = table.get(fld)
